@@ -29,13 +29,13 @@ Qed.
 (* ---- Get after Set ------------------------------------------------------------------- *)
 Require Import OrderLemmas AMapLemmas.
 
-(* A Set that reports success on a non-nil map stores the value: Get returns exactly the
-   value given to Set, every other key is unchanged. *)
-Lemma tags_get_set : forall (m : tagmap) k v t',
-  tags_set (Some m) k v = Some t' ->
-  tags_get t' k = Some v /\ (forall k', k' <> k -> tags_get t' k' = tags_get (Some m) k').
+(* A Set that reports success stores the value: Get returns exactly the value given to
+   Set, every other key is unchanged -- for every receiver (a nil Tags is refused). *)
+Lemma tags_get_set : forall (t : wtags) k v t',
+  tags_set t k v = Some t' ->
+  tags_get t' k = Some v /\ (forall k', k' <> k -> tags_get t' k' = tags_get t k').
 Proof.
-  intros m k v t' H. unfold tags_set in H.
+  intros t k v t' H. unfold tags_set in H. destruct t as [m|]; [|discriminate].
   destruct (negb (valid_tag k)); [discriminate|].
   destruct (Nat.ltb 0 (length (tag_escape v)) && negb (valid_tag_value (tag_escape v)))%bool; [discriminate|].
   destruct (Nat.ltb max_tag_length _); [discriminate|].
@@ -49,8 +49,6 @@ Example tags_set_example :
   exists t', tags_set (Some []) (bs "+draft/k") [59; 32; 92; 13; 10; 120] = Some t'.
 Proof. vm_compute. eexists; reflexivity. Qed.
 
-(* The nil receiver: the Go method allocates a map only it can see.  Set reports success
-   and the caller's Tags are still nil, so Get finds nothing (finding tags-set-nil). *)
-Lemma tags_set_nil_loses_value :
-  exists k v t', tags_set None k v = Some t' /\ tags_get t' k = None.
-Proof. exists (bs "a"), (bs "b"), None. vm_compute. split; reflexivity. Qed.
+(* Set on a nil Tags is an error: it never reports success while losing the value. *)
+Lemma tags_set_nil_error : forall k v, tags_set None k v = None.
+Proof. reflexivity. Qed.
